@@ -3,3 +3,6 @@ FUNCS = ["Job.dependencychanged", "Dependency.check", "Scheduler.aio_registerJob
          "Scheduler.aio_submit", "Scheduler.aio_start"]
 LEVEL = "proof"
 TRUSTED = []
+
+from bounded.findings import run_c06_lost_ready
+BOUNDED = [("lost READY after an aborted start (native schedule)", run_c06_lost_ready)]
